@@ -13,6 +13,9 @@ def run(ctx):
     behs += life.gen(ctx, two, 2 if q else 3, "all histories of the image alphabet, 2 builders on shared targets")
     behs += life.sim(ctx, dict(two, Ops="<- AllOps", RS="<- RS_12", A="{0, 1}", CB='{"c1", "c2"}'),
                      250 if q else 4000, 12, "random histories, 2 builders, all ops")
+    held = dict(one, T='{"f"}', Ops="<- ImageHeldOps")
+    behs += life.gen(ctx, held, 3 if q else 4, "all histories incl. kept mocker handles re-used after Cancel/Reset, 1 target")
+    behs += life.sim(ctx, dict(one, Ops="<- HeldOps", RS="<- RS_12", A="{0, 1}"), 150 if q else 3000, 12, "random histories with kept handles")
     life.replay(ctx, "life", behs)
     ctx.cov["exhaustive"] = True
     ctx.cov["rule"] = ("every history over {Apply, Origin+Apply, Return, When, Cancel, Reset} to the stated depth for one "
